@@ -654,7 +654,8 @@ def run(ck, repo: Repo, tier: str):
     fn = _m(repo, RB + "PrioritizedReplayBuffer", "sample_batch")
     cfgs = nf.cfg_of(fn)
     rc = stmt_calls(cfgs, lambda c: isinstance(c.func, ast.Attribute) and c.func.attr == "compute_importance_ratio")
-    gathers = [n for n in ast.walk(fn) if isinstance(n, ast.Subscript) and isinstance(n.value, ast.Subscript) and dotted(n.value.value) == "self.buffer"]
+    from ..sem import field_gathers
+    gathers = [g_["sub"] for g_ in field_gathers(fn)]
     ck.need(len(rc) == 1 and gathers, f"{RB}PrioritizedReplayBuffer.sample_batch: importance-ratio call / gather not found (unrecognised idiom)")
     nrc, crc = rc[0]
     ia = crc.args[0] if crc.args else next((k.value for k in crc.keywords if k.arg == "indices"), None)
